@@ -25,16 +25,17 @@ import (
 // ---- independent draft-ietf-tls-esni section 4 parser (no code shared with /repo) ----
 
 type refConfig struct {
-	Version    uint16
-	ID         uint8
-	KEM        uint16
-	PublicKey  []byte
-	Suites     [][2]uint16
-	MaxNameLen uint8
-	PublicName []byte
-	ExtBytes   []byte // raw extensions vector contents, nil when the field is absent
-	HasExt     bool
-	Raw        []byte
+	Version      uint16
+	ID           uint8
+	KEM          uint16
+	PublicKey    []byte
+	Suites       [][2]uint16
+	MaxNameLen   uint8
+	PublicName   []byte
+	ExtBytes     []byte // raw extensions vector contents, nil when the field is absent
+	HasExt       bool
+	MandatoryExt bool // an extension with the high bit set in its type
+	Raw          []byte
 }
 
 var errRef = errors.New("ref: malformed")
@@ -133,6 +134,16 @@ func refParseConfig(r *rd, strict bool) (refConfig, error) {
 		if len(in.b) != 0 {
 			return c, errRef
 		}
+		// the vector is a sequence of whole extensions: type(2) length(2) data
+		for e := c.ExtBytes; len(e) > 0; {
+			if len(e) < 4 || 4+(int(e[2])<<8|int(e[3])) > len(e) {
+				return c, errRef
+			}
+			if e[0]&0x80 != 0 {
+				c.MandatoryExt = true // a client that does not know it must ignore the whole config
+			}
+			e = e[4+(int(e[2])<<8|int(e[3])):]
+		}
 		if len(c.PublicKey) == 0 || len(c.Suites) == 0 || len(c.PublicName) == 0 {
 			return c, errRef
 		}
@@ -209,6 +220,15 @@ func genName(rng *mrand.Rand, n int, ldh bool) []byte {
 // DNSName builds a name of exactly n bytes (n>=3) accepted by crypto/tls'
 // public-name validation: >=2 non-empty LDH labels of <=63 bytes, no leading
 // or trailing hyphen.
+// HostName is DNSName drawn again until it is a name every producer and parser has to take (strictName).
+func HostName(rng *mrand.Rand, n int) string {
+	for try := 0; ; try++ {
+		if name := DNSName(rng, n); strictName([]byte(name)) || try > 50 {
+			return name
+		}
+	}
+}
+
 func DNSName(rng *mrand.Rand, n int) string {
 	const al = "abcdefghijklmnopqrstuvwxyz0123456789"
 	if n < 3 {
@@ -299,10 +319,17 @@ func strictName(name []byte) bool {
 	if !validDNSName(string(name)) {
 		return false
 	}
-	for _, l := range strings.Split(string(name), ".") {
+	labels := strings.Split(string(name), ".")
+	for _, l := range labels {
 		if len(l) > 63 {
 			return false
 		}
+	}
+	// A last label of decimal digits, or "0x" and hexadecimal digits, may be read as an IPv4 literal: section 4 of
+	// the draft tells clients to ignore such configs (SHOULD), so a producer may refuse the name. It need not.
+	last := strings.ToLower(labels[len(labels)-1])
+	if strings.Trim(last, "0123456789") == "" || strings.HasPrefix(last, "0x") && strings.Trim(last[2:], "0123456789abcdef") == "" {
+		return false
 	}
 	return true
 }
@@ -384,10 +411,13 @@ func TestCheck(t *testing.T) {
 			}
 			if spec.Version != 0xfe0d {
 				// the only ECHConfig version there is: anything else is no config a client can use
-				if err == nil {
-					r.Violate("codec", i, "codec:other-version-encoded", fmt.Sprintf("ConfigSpec.Bytes produced a config of version 0x%04x", spec.Version), c)
-				} else {
+				switch {
+				case err != nil:
 					r.Count("codec_refused_other_version", 1)
+				case len(enc) >= 2 && enc[0] == 0xfe && enc[1] == 0x0d:
+					r.Count("codec_other_version_encoded_as_fe0d", 1) // e.g. an unset Version taken as the default
+				default:
+					r.Violate("codec", i, "codec:other-version-encoded", fmt.Sprintf("ConfigSpec.Bytes produced a config of version 0x%04x", spec.Version), c)
 				}
 				r.Eval(fmt.Sprintf("codec|version|%04x", spec.Version))
 				return
@@ -433,8 +463,10 @@ func TestCheck(t *testing.T) {
 				}
 				r.Count("codec_maximum_name_length_compared_across_specs", 1)
 			}
-			if strictOK && (!rc.HasExt || len(rc.ExtBytes) != 0) {
-				r.Violate("codec", i, "codec:extensions", "encoding lacks an empty extensions vector", c)
+			// The vector must be there and well-formed (the strict parse above walked it). It need not be empty: an
+			// encoder may add extensions that clients ignore (GREASE) - but none that a client has to understand.
+			if strictOK && (!rc.HasExt || rc.MandatoryExt) {
+				r.Violate("codec", i, "codec:extensions", "encoding lacks an extensions vector, or carries a mandatory extension (clients that do not know it ignore the config)", c)
 			}
 			got, err := ech.Config(enc).Spec()
 			if err != nil {
@@ -492,8 +524,10 @@ func TestCheck(t *testing.T) {
 			s.MaximumNameLength = uint8(min(len(s.PublicName)+16, 255))
 			cfgs = append(cfgs, b)
 			specs = append(specs, s)
-			if len(s.PublicKey) == 0 || len(s.CipherSuites) == 0 || len(s.PublicName) == 0 {
-				outOfGrammar = true // HpkePublicKey<1..>, cipher_suites<4..>, public_name<1..255>: a parser may refuse the element
+			if len(s.PublicKey) == 0 || len(s.CipherSuites) == 0 || len(s.PublicName) == 0 || !strictName(s.PublicName) {
+				// HpkePublicKey<1..>, cipher_suites<4..>, public_name<1..255> and "a valid host name" (clients ignore any
+				// other config): a parser may refuse the element
+				outOfGrammar = true
 			}
 		}
 		c := map[string]any{"n": n}
@@ -579,7 +613,7 @@ func TestCheck(t *testing.T) {
 	// -- a config cut short INSIDE its length-prefixed contents (the config's and the list's length fields say so):
 	// every such cut removes part of a field the structure requires, down to the extensions vector at its end --
 	r.ParallelW("innercut", r.N(6, 60), 1, func(i int, rng *mrand.Rand) {
-		_, cfg, err := ech.NewConfig(uint8(i), []byte(DNSName(rng, 8+rng.IntN(40))))
+		_, cfg, err := ech.NewConfig(uint8(i), []byte(HostName(rng, 8+rng.IntN(40))))
 		if err != nil {
 			r.Inconclusive("fixture: NewConfig: %v", err)
 			return
@@ -606,11 +640,23 @@ func TestCheck(t *testing.T) {
 	// -- a cipher_suites vector that does not consist of whole 4-byte suites (cut inside a suite, or 1..3 stray bytes
 	// after the last one), every enclosing length consistent: HpkeSymmetricCipherSuite cipher_suites<4..2^16-4> --
 	r.ParallelW("raggedsuites", r.N(8, 80), 1, func(i int, rng *mrand.Rand) {
-		_, cfg, err := ech.NewConfig(uint8(i), []byte(DNSName(rng, 8+rng.IntN(40))))
+		_, cfg0, err := ech.NewConfig(uint8(i), []byte(HostName(rng, 8+rng.IntN(40))))
 		if err != nil {
 			r.Inconclusive("fixture: NewConfig: %v", err)
 			return
 		}
+		// the base is the HARNESS encoding of what NewConfig made (known layout, empty extensions vector last),
+		// whatever the package's encoder appends there
+		rc0, rerr := refParseConfig(&rd{cfg0}, true)
+		if rerr != nil {
+			r.Inconclusive("fixture: NewConfig output does not parse: %v", rerr)
+			return
+		}
+		base := ech.ConfigSpec{Version: rc0.Version, ID: rc0.ID, KEM: rc0.KEM, PublicKey: rc0.PublicKey, PublicName: rc0.PublicName}
+		for _, su := range rc0.Suites {
+			base.CipherSuites = append(base.CipherSuites, ech.CipherSuite{KDF: su[0], AEAD: su[1]})
+		}
+		cfg := refEncode(base)
 		contents := cfg[4:]
 		pkLen := int(contents[3])<<8 | int(contents[4])
 		csOff := 5 + pkLen // offset of the length prefix of cipher_suites
@@ -649,11 +695,23 @@ func TestCheck(t *testing.T) {
 	// -- an extensions vector that does not consist of whole extensions (type(2) length(2) data): 1..3 stray bytes alone
 	// or after whole extensions, or an extension whose data is cut short; every enclosing length consistent --
 	r.ParallelW("raggedexts", r.N(8, 80), 1, func(i int, rng *mrand.Rand) {
-		_, cfg, err := ech.NewConfig(uint8(i), []byte(DNSName(rng, 8+rng.IntN(40))))
+		_, cfg0, err := ech.NewConfig(uint8(i), []byte(HostName(rng, 8+rng.IntN(40))))
 		if err != nil {
 			r.Inconclusive("fixture: NewConfig: %v", err)
 			return
 		}
+		// the base is the HARNESS encoding of what NewConfig made (known layout, empty extensions vector last),
+		// whatever the package's encoder appends there
+		rc0, rerr := refParseConfig(&rd{cfg0}, true)
+		if rerr != nil {
+			r.Inconclusive("fixture: NewConfig output does not parse: %v", rerr)
+			return
+		}
+		base := ech.ConfigSpec{Version: rc0.Version, ID: rc0.ID, KEM: rc0.KEM, PublicKey: rc0.PublicKey, PublicName: rc0.PublicName}
+		for _, su := range rc0.Suites {
+			base.CipherSuites = append(base.CipherSuites, ech.CipherSuite{KDF: su[0], AEAD: su[1]})
+		}
+		cfg := refEncode(base)
 		contents := cfg[4:]
 		if n := len(contents); n < 2 || contents[n-2] != 0 || contents[n-1] != 0 {
 			r.Inconclusive("fixture: NewConfig no longer ends in an empty extensions vector")
@@ -670,9 +728,9 @@ func TestCheck(t *testing.T) {
 			whole = append(whole, d...)
 		}
 		variants := map[string][]byte{
-			"stray-1": append(append([]byte{}, whole...), 0xfa),
-			"stray-2": append(append([]byte{}, whole...), 0xfa, 0x01),
-			"stray-3": append(append([]byte{}, whole...), 0xfa, 0x01, 0x00),
+			"stray-1":  append(append([]byte{}, whole...), 0xfa),
+			"stray-2":  append(append([]byte{}, whole...), 0xfa, 0x01),
+			"stray-3":  append(append([]byte{}, whole...), 0xfa, 0x01, 0x00),
 			"data-cut": append(append([]byte{}, whole...), 0xfa, 0x01, 0x00, 0x05, 1, 2),
 		}
 		if len(whole) > 0 {
@@ -729,7 +787,7 @@ func TestCheck(t *testing.T) {
 				return
 			}
 			want := ech.ConfigSpec{Version: 0xfe0d, ID: id, KEM: 0x20, PublicKey: priv.PublicKey().Bytes(),
-				CipherSuites: []ech.CipherSuite{{KDF: 1, AEAD: 3}, {KDF: 1, AEAD: 2}, {KDF: 1, AEAD: 1}},
+				CipherSuites:      []ech.CipherSuite{{KDF: 1, AEAD: 3}, {KDF: 1, AEAD: 2}, {KDF: 1, AEAD: 1}},
 				MaximumNameLength: uint8(min(nl+16, 255)), PublicName: name}
 			if priv.Curve() != ecdh.X25519() {
 				r.Violate("newconfig", i, "newconfig:curve", "private key is not X25519", c)
@@ -801,7 +859,7 @@ func TestCheck(t *testing.T) {
 						CipherSuites: []ech.CipherSuite{suiteIDs[mode-1]}, PublicName: []byte(pub)}.Bytes()
 				}
 			}
-			if err != nil && odd && !strictName([]byte(pub)) {
+			if err != nil && !strictName([]byte(pub)) { // an odd name, or a plain one whose last label reads like a number
 				r.Count("odd_names_refused_by_the_producer", 1)
 				r.Eval(fmt.Sprintf("handshake|odd-refused|%d", (i/5)%23))
 				return
@@ -878,6 +936,11 @@ func TestCheck(t *testing.T) {
 			}
 			if j == 0 && len(s.PublicName) > 40 {
 				s.PublicName = s.PublicName[:40]
+			}
+			if !strictName(s.PublicName) {
+				// the baseline is a list every parser has to take: host names only (a parser may refuse a config whose
+				// public_name is none, as clients do)
+				s.PublicName = []byte(HostName(rng, max(4, min(len(s.PublicName), 60))))
 			}
 			cfgs = append(cfgs, encodeAny(s))
 		}
@@ -993,8 +1056,8 @@ func judge(r *mon.Run, work string, i int, fp string, in []byte) {
 		if sref, serr := refParseList(in, true); serr == nil {
 			ok := true
 			for _, c := range sref {
-				if c.Version != 0xfe0d {
-					ok = false
+				if c.Version != 0xfe0d || !strictName(c.PublicName) || c.MandatoryExt {
+					ok = false // other versions, a public_name that is no host name, mandatory extensions: may be refused
 				}
 			}
 			if ok {
